@@ -215,12 +215,17 @@ class KMeans(Medoids):
                 weights = None
             else:
                 weights = min_dists / sum_min_dists
-            idx_cand = np.random.choice(len(min_dists), size=n_samples, replace=False, p=weights)
+            # Not more candidates than there are series that can be drawn (non-zero probability)
+            if weights is None:
+                n_draw = min(n_samples, len(min_dists))
+            else:
+                n_draw = min(n_samples, int(np.count_nonzero(weights)))
+            idx_cand = np.random.choice(len(min_dists), size=n_draw, replace=False, p=weights)
             for s_idx, idx in enumerate(idx_cand):
                 dists[s_idx, :] = np.power(fn(series, block=((idx, idx + 1), (0, len(series)), False),
                                               compact=True, **self.dists_options), 2)
                 np.minimum(dists[s_idx, :], min_dists, out=dists[s_idx, :])
-            potentials = np.sum(dists, axis=1)
+            potentials = np.sum(dists[:n_draw, :], axis=1)
             best_pot_idx = np.argmin(potentials)
             idx = idx_cand[best_pot_idx]
             min_dists[:] = dists[best_pot_idx, :]
